@@ -33,6 +33,15 @@ that is an array / list / tuple / float32 array / scalar, a scaled view of the s
 a scaled view or a slice of one of ANOTHER LasData / record whose scale and offset are equal, equal in scale only, or different,
 a sub-field view. The model takes a view by what it presents (vsrc_vals); the oracle computes the coordinates the value presents
 by the law in binary64 and requires the nearest integers under the scaling in force (the header's for las.x =, else the record's).
+In place (round 6): augmented assignments `target op= d` (+=, -=, *=, /=) are assignment routes of their own (op IP): target las.x /
+las['x'] / las.points.x (also through a variable holding the record) / las.points['x'] / las.x[:] / las.x[int|slice|mask|list] / the x of
+a slice sub-record (shares the record's memory) / a view held in a variable (`v = las.x; v += d`: rebinds v today, nothing may change;
+were the view to store through, the law judges it); operand a Python float / numpy scalar / int / per-point array, chosen so that every
+result stays inside the window (often ON an edge), pushes one point out at either end, or is non-finite. The model (vsrc VSelfOp) takes
+the presented coordinates combined with the operand by the view's binary operator (Gen: ArrayView.__add__ ..., and that no in-place
+operator exists); the oracle computes the combination in binary64 itself and requires the nearest integers under the scaling in force,
+OverflowError and nothing stored when a result is outside the window or not finite. change_scaling: a header field it is not given stays
+as the caller left it (directed histories: every kind of pending edit x every subset of {scales, offsets}).
 Search: the property stated on the implementation with exact rationals (no model)."""
 import io
 import math
@@ -44,7 +53,12 @@ from harness import common, lasio
 
 DRIVER = "c11"
 ASSUMPTIONS = [
-    "scales are positive finite doubles in [1e-9, 1e3], |offset| <= 1e9, coordinates are finite doubles (nan/inf inputs are outside the property)",
+    "scales are positive finite doubles in [1e-9, 1e3], |offset| <= 1e9, coordinates are finite doubles (nan/inf inputs are outside the property, "
+    "except as the operand or result of an augmented assignment: a coordinate that is not finite cannot be represented - OverflowError, nothing stored)",
+    "the model's binary64 has one non-finite value (nan and +-inf are not told apart; -0 is 0): x / +-inf, which is the finite +-0, is given to the model as x * 0",
+    "an augmented assignment `target op= d` is judged as Python defines it: the assignment, by the route of the target, of the coordinates the target "
+    "presents combined with d in binary64; an implementation that shifts the stored integers instead is accepted when every result is within half a "
+    "step (+ the binary64 slack) of that, and must raise OverflowError when one is outside the window",
     "numpy float64 arithmetic is IEEE-754 binary64 round-to-nearest-even, numpy.round on float64 is rint, a float64 -> int32 cast of an in-range integral value is exact",
     "numpy broadcasting of the assigned value is resolved by the caller: the model receives one value per point",
     "streaming in chunks is compared with the model's single write_points of the whole record (same integers on success; the model raises iff some chunk raises)",
@@ -63,6 +77,16 @@ ASSUMPTIONS = [
 
 INT_MIN, INT_MAX = -2 ** 31, 2 ** 31 - 1
 AX = "xyz"
+BOP_NAME = {"+": "add", "-": "sub", "*": "mul", "/": "div"}
+
+
+def combine64(xs, ds, bop):
+    """x <bop> d in binary64, element by element (xs: Fractions | None, ds: doubles) -> Fractions | None (non-finite)"""
+    import operator
+    f = {"+": operator.add, "-": operator.sub, "*": operator.mul, "/": operator.truediv}[bop]
+    with np.errstate(all="ignore"):
+        r = f(np.array([math.nan if x is None else float(x) for x in xs], dtype=np.float64), np.array(list(ds), dtype=np.float64))
+    return [fr(v) for v in np.atleast_1d(r).tolist()]
 
 
 # ---------------------------------------------------------------------------------
@@ -528,6 +552,8 @@ class History:
                 return {"op": "MO", "axis": rng.randrange(3), "v": gen_offset(rng), "el": rng.random() < 0.4, "np": rng.random() < 0.3}
         elif rng.random() < 0.09:
             return self.gen_open()
+        if rng.random() < 0.07:
+            return self.gen_inplace()
         r = rng.random()
         if r < 0.16:
             return self.gen_assign_value()
@@ -608,7 +634,7 @@ class History:
         ws = [cur_s[i] * rng.choice([1, 1, 10, 100, 0.1, 0.5, 2]) if rng.random() < 0.7 else gen_scale(rng) for i in range(3)]
         ws = [min(1e3, max(1e-9, x)) for x in ws]
         wo = [cur_o[i] if rng.random() < 0.5 else gen_offset(rng) for i in range(3)]
-        return {"op": "S", "ws": ws, "wo": wo, "chunk": rng.choice([0, 0, 1, 2]), "via": rng.choice(["writer", "writer", "appender", "appender0"])}
+        return {"op": "S", "ws": ws, "wo": wo, "chunk": rng.choice([0, 0, 1, 2, -1]), "via": rng.choice(["writer", "writer", "appender", "appender0"])}
 
     def gen_open(self):
         rng = self.rng
@@ -718,6 +744,96 @@ class History:
         op["src"] = src
         return op
 
+    # ---- augmented assignments: las.x += d, las.points.x -= d, las['x'] *= d, las.x[key] /= d, sub-record, a view held in a variable ----
+    def gen_delta(self, mode, bop, xs, s, o):
+        """the operand of `view <bop>= d` for the coordinates xs (doubles) now presented, to be stored under (s, o): the results stay
+        in the int32 window (often ending ON its edge), the largest / smallest leaves it by a fraction of a step up to a few steps,
+        a non-finite operand, anything. Returns (d, index of the point pushed | None)"""
+        rng = self.rng
+        S, O = Fraction(s), Fraction(o)
+        if mode == "nonfinite":
+            return rng.choice([math.nan, math.inf, -math.inf] + ([0.0] if bop == "/" else [])), None
+        fin = [(Fraction(x), i) for i, x in enumerate(xs) if math.isfinite(x)]
+        if mode == "random" or not fin:
+            return rng.choice([gen_offset(rng), rng.uniform(-10, 10) * s, float(rng.randrange(-5, 6)), s, 1.0, 0.5, -1.0, 1e300, 5e-324]), None
+        qs = [((x - O) / S, i) for x, i in fin]
+        (qmax, imax), (qmin, imin) = max(qs), min(qs)
+        if mode == "fit":
+            r = rng.random()
+            if r < 0.35:      # the largest result lands on the top edge (or just inside), the others below
+                q_to, (q_from, at) = Fraction(INT_MAX) - rng.choice([0, 0, 1, 2]) + rng.choice([Fraction(0), Fraction(49, 100), Fraction(-49, 100)]), (qmax, imax)
+            elif r < 0.7:
+                q_to, (q_from, at) = Fraction(INT_MIN) + rng.choice([0, 0, 1, 2]) + rng.choice([Fraction(0), Fraction(49, 100), Fraction(-49, 100)]), (qmin, imin)
+            else:
+                k = rng.choice([Fraction(0), Fraction(1), Fraction(-1), Fraction(20), Fraction(1, 2), Fraction(-1, 2), Fraction(49, 100),
+                                Fraction(rng.randrange(-1000, 1000)), Fraction(rng.randrange(-10 ** 6, 10 ** 6), 1000)])
+                q_to, (q_from, at) = qmax + k, (qmax, imax)
+        else:
+            beyond = rng.choice([Fraction(51, 100), Fraction(6, 10), Fraction(1), Fraction(3, 2), Fraction(2), Fraction(50), Fraction(rng.randrange(1, 4000), 7)])
+            if mode == "hi":
+                q_to, (q_from, at) = Fraction(INT_MAX) + beyond, (qmax, imax)
+            else:
+                q_to, (q_from, at) = Fraction(INT_MIN) - beyond, (qmin, imin)
+        x_from, x_to = O + q_from * S, O + q_to * S
+        if bop == "+":
+            d = x_to - x_from
+        elif bop == "-":
+            d = x_from - x_to
+        elif x_from == 0 or x_to == 0:
+            return rng.choice([1.0, 2.0, 0.5, -1.0]), None
+        elif bop == "*":
+            d = x_to / x_from
+        else:
+            d = x_from / x_to
+        try:
+            d = float(d)
+        except OverflowError:
+            d = 1e300
+        return d, at
+
+    def gen_inplace(self, mode=None, route=None, bop=None, axis=None):
+        rng = self.rng
+        las = self.las
+        n = self.n
+        route = route or rng.choice(["attr", "attr", "attr", "item", "pattr", "pattr", "pitem", "viewall", "view", "view", "sub", "bare"])
+        if route == "sub" and n < 2:
+            route = "pattr"
+        if route == "view" and n == 0:
+            route = "viewall"
+        axis = rng.randrange(3) if axis is None else axis
+        bop = bop or rng.choice(["+", "+", "+", "-", "-", "-", "*", "/"])
+        mode = mode or rng.choice(["fit", "fit", "hi", "lo", "hi", "lo", "nonfinite", "random"])
+        op = {"op": "IP", "route": route, "axis": axis, "bop": bop, "mode": mode}
+        S, O = (las.header.scales, las.header.offsets) if route == "attr" else (las.points.scales, las.points.offsets)
+        s, o = float(S[axis]), float(O[axis])
+        positions = list(range(n))
+        if route == "view":
+            op["key"] = rng.choice([k for k in ("int", "slice1", "step2", "mask", "list") if n >= 2 or k in ("int", "step2", "list")])
+            op["at"] = rng.randrange(n)
+            positions = key_positions(op["key"], n, op["at"])
+        elif route == "sub":
+            op["key"] = rng.choice(["slice1", "step2"])
+            positions = key_positions(op["key"], n)
+        if route in ("view", "viewall", "bare"):
+            op["target"] = rng.choice(["las.x", "las['x']", "las.points.x", "las.points['x']"])
+        if route == "pattr":
+            op["target"] = rng.choice(["las.points", "rec"])
+        xs = [fls(np.asarray(getattr(las, AX[axis])))[i] for i in positions]
+        d, at = self.gen_delta(mode, bop, xs, s, o)
+        form = rng.choice(["float", "float", "np", "array", "array"])
+        if form == "float" and math.isfinite(d) and d == int(d) and abs(d) < 2 ** 53 and rng.random() < 0.5:
+            form = "int"
+        if form == "array" and (not positions or (route == "view" and op["key"] == "int")):
+            form = "float"
+        if form == "array":
+            # one operand per point: the chosen point gets d, the others move by about a step (they stay where they are in the window)
+            small = {"+": s, "-": s, "*": 1.0, "/": 1.0}[bop]
+            ds = [d if (at is None or j == at) else rng.choice([small, small, 0.0 if bop in "+-" else 1.0, -small if bop in "+-" else 1.0]) for j in range(len(positions))]
+        else:
+            ds = [d] * len(positions)
+        op["d"], op["form"], op["ds"] = d, form, ds
+        return op
+
     def gen_items(self):
         """las[['x', 'y', 'z']] = (m, 3) array / las.points[('x', 'y', 'z')] = ... : the record's own scaling"""
         rng = self.rng
@@ -819,6 +935,8 @@ class History:
                 las.points.offsets[op["axis"]] = op["v"]
             elif kind == "V":
                 info = self.assign_value(op)
+            elif kind == "IP":
+                info = self.inplace(op)
             elif kind == "SX":
                 arr = np.array(op["cols"], dtype=np.float64).T.reshape(-1, 3)
                 if op["target"] == "struct":      # a structured array: one named field per dimension
@@ -877,7 +995,7 @@ class History:
                 out = self.stream(op)
         except Exception as ex:
             out = ("err", common.exc_kind(ex), str(ex)[:80])
-            if kind == "V":
+            if kind in ("V", "IP"):
                 info = self.vinfo
         after = snapshot(las)
         self.last = after
@@ -915,6 +1033,53 @@ class History:
         finally:
             if owner:
                 info["owner_changed"] = owner[1]() != owner[0]
+        return info
+
+    def inplace(self, op):
+        """an augmented assignment, written as the statement it is (Python: evaluate the target once, the view's in-place operator
+        when it has one - else its binary operator -, then store the result back by the same route)"""
+        import warnings
+        las = self.las
+        nm = AX[op["axis"]]
+        op["n_at"] = n = len(las.points)
+        form = op["form"]
+        d = (float(op["d"]) if form == "float" else np.float64(op["d"]) if form == "np" else int(op["d"]) if form == "int"
+             else np.array(op["ds"], dtype=np.float64))
+        env = {"las": las, "d": d, "rec": las.points, "np": np}
+        tg = op.get("target", "las.x").replace("x", nm) if op.get("target", "").startswith("las") else None
+        b = op["bop"]
+        r = op["route"]
+        if r == "attr":
+            src = f"las.{nm} {b}= d"
+        elif r == "item":
+            src = f"las['{nm}'] {b}= d"
+        elif r == "pattr":
+            src = f"{op.get('target', 'las.points')}.{nm} {b}= d"
+        elif r == "pitem":
+            src = f"las.points['{nm}'] {b}= d"
+        elif r == "viewall":
+            src = f"{tg}[:] {b}= d"
+        elif r == "view":
+            env["k"] = key_object(op["key"], n, op.get("at", 0))
+            src = f"{tg}[k] {b}= d"
+        elif r == "sub":
+            env["k"] = key_object(op["key"], n)
+            src = f"sub = las.points[k]\nsub.{nm} {b}= d"
+        else:
+            src = f"v = {tg}\nv {b}= d"
+        op["stmt"] = src.replace("\n", "; ")
+        self.vinfo = info = {"bare": None}
+        with warnings.catch_warnings():
+            warnings.simplefilter("ignore")
+            try:
+                exec(src, env)
+            finally:
+                if r == "bare" and "v" in env:
+                    v = env["v"]
+                    try:
+                        info["bare"] = (type(v).__name__, fls(np.asarray(v)))
+                    except Exception as ex:      # noqa
+                        info["bare"] = (type(v).__name__, common.exc_kind(ex))
         return info
 
     def session_info(self):
@@ -978,7 +1143,10 @@ class History:
         hs, ho = frs(hdr2.scales), frs(hdr2.offsets)
         pts = las.points
         n = len(pts)
-        chunks = [pts] if not op["chunk"] or n == 0 else [pts[i:i + op["chunk"]] for i in range(0, n, op["chunk"])]
+        if op["chunk"] == -1 and n > 0:
+            chunks = [pts[i] for i in range(n)]          # point by point, each a one-point (0-d) record sharing the record's memory
+        else:
+            chunks = [pts] if op["chunk"] <= 0 or n == 0 else [pts[i:i + op["chunk"]] for i in range(0, n, op["chunk"])]
         skip = 0
         if op["via"] == "writer":
             bio = io.BytesIO()
@@ -1032,6 +1200,18 @@ class History:
             r = op["route"]
             if r == "view":
                 return f"SV:{op['axis']}:{zl(key_positions(op['key'], op['n_at'], op.get('at', 0)))}:{v}"
+            return f"{'SA' if r == 'attr' else 'SI' if r in ('item', 'pitem') else 'SP'}:{op['axis']}:{v}"
+        if k == "IP":
+            r = op["route"]
+            if r == "bare":
+                return None      # `v = las.x; v += d` rebinds v (the views have no in-place operator): nothing of the LasData may change
+            pos = key_positions(op["key"], op["n_at"], op.get("at", 0)) if r in ("view", "sub") else list(range(op["n_at"]))
+            bn, ds = BOP_NAME[op["bop"]], op["ds"]
+            if bn == "div" and ds and all(math.isinf(x) for x in ds):
+                bn, ds = "mul", [0.0] * len(ds)      # the model has ONE non-finite value: x / +-inf (the finite +-0) is given to it as x * 0
+            v = f"p={op['axis']}={zl(pos)}={bn}={ftoks(ds)}"
+            if r in ("view", "sub"):
+                return f"SV:{op['axis']}:{zl(pos)}:{v}"
             return f"{'SA' if r == 'attr' else 'SI' if r in ('item', 'pitem') else 'SP'}:{op['axis']}:{v}"
         if k == "WO":
             if op["hdr"] == "caller":
@@ -1310,8 +1490,9 @@ def oracle_assign(before, after, out, a, vals, positions, s, o, grows, takes_hea
     grows first when the route allows it) or to the points `positions`"""
     n = len(before["ints"][0])
     m = len(vals)
-    if s is None or o is None or s == 0 or any(v is None for v in vals):
+    if s is None or o is None or s == 0:
         return None
+    nonfinite = any(v is None for v in vals)        # a coordinate that is nan / inf cannot be represented: OverflowError, nothing stored
     cols = before["ints"]
     mismatch = False
     if positions is None:
@@ -1330,10 +1511,12 @@ def oracle_assign(before, after, out, a, vals, positions, s, o, grows, takes_hea
         if out[0] == "err":
             return (f"assign raised ({label})", f"an empty value raised {out[1]}: {out[2]}")
         return None if after["ints"] == before["ints"] else (f"assign empty modified ({label})", "an empty value changed the integers")
-    qs = [(v - o) / s for v in vals]
+    fin = [v for v in vals if v is not None]
+    qs = [(v - o) / s for v in fin]
     tols = [abs(q) * Fraction(1, 2 ** 51) for q in qs]
-    certainly_fit = all(INT_MIN <= rhe(q - t) and rhe(q + t) <= INT_MAX for q, t in zip(qs, tols))
-    certainly_out = any((rhe(q - t) > INT_MAX and rhe(q + t) > INT_MAX) or (rhe(q - t) < INT_MIN and rhe(q + t) < INT_MIN) for q, t in zip(qs, tols))
+    certainly_fit = not nonfinite and all(INT_MIN <= rhe(q - t) and rhe(q + t) <= INT_MAX for q, t in zip(qs, tols))
+    certainly_out = nonfinite or any((rhe(q - t) > INT_MAX and rhe(q + t) > INT_MAX) or (rhe(q - t) < INT_MIN and rhe(q + t) < INT_MIN)
+                                     for q, t in zip(qs, tols))
     if out[0] == "err":
         if not ((out[1] == "EOverflow" and not certainly_fit) or (out[1] == "EValue" and mismatch)):
             if out[1] == "EOverflow":
@@ -1345,8 +1528,8 @@ def oracle_assign(before, after, out, a, vals, positions, s, o, grows, takes_hea
     if mismatch:
         return (f"assign mismatch accepted ({label})", f"{m} values were accepted for {len(positions) if positions else n} points")
     if certainly_out:
-        return (f"assign wrapped ({label})", f"a value that does not fit was stored: {after['ints'][a]} for (v - offset) / scale = "
-                + ", ".join(show(q) for q in qs[:6]))
+        return (f"assign wrapped ({label})", f"a value that does not fit was stored: {after['ints'][a]} (before: {before['ints'][a]}) for "
+                f"(v - offset) / scale = " + ", ".join("non-finite" if v is None else show((v - o) / s) for v in vals[:6]))
     if [len(c) for c in after["ints"]] != [len(c) for c in cols]:
         return (f"assign length ({label})", f"{len(after['ints'][a])} points after assigning {m} values to a record of {n}")
     want = {}
@@ -1474,6 +1657,28 @@ def oracle_step(op, before, out, after, info=None):
         positions = key_positions(op["key"], n, op.get("at", 0)) if route == "view" else None
         return oracle_assign(before, after, out, a, src_expected(src, before), positions, s, o,
                              route in ("attr", "item", "pitem"), route == "attr", label)
+    if k == "IP":
+        route, a, b = op["route"], op["axis"], op["bop"]
+        what = {"attr": "las.x", "item": "las['x']", "pattr": "las.points.x", "pitem": "las.points['x']", "viewall": "las.x[:]", "view": "las.x[key]",
+                "sub": "las.points[a:b].x", "bare": "v = las.x; v"}[route]
+        label = f"{what} {b}= " + ("non-finite" if not all(math.isfinite(x) for x in op["ds"]) else "array" if op["form"] == "array" else "scalar")
+        positions = key_positions(op["key"], n, op.get("at", 0)) if route in ("view", "sub") else None
+        shown = before["xyz"][a] if positions is None else [before["xyz"][a][i] for i in positions]
+        vals = combine64(shown, op["ds"], b) if shown else []
+        s, o = (before["hs"][a], before["ho"][a]) if route == "attr" else (before["rs"][a], before["ro"][a])
+        if route == "bare":
+            # a view held in a variable: either the operator gives a new array (nothing of the LasData changes, what v
+            # shows is the coordinates combined with d), or it stores through the view - then as any assignment
+            same = all(after[key] == before[key] for key in ("ints", "rs", "ro", "hs", "ho"))
+            if same and out[0] == "none":
+                if info and info.get("bare") and isinstance(info["bare"][1], list):
+                    got = [fr(x) for x in info["bare"][1]]
+                    if got != vals and info["bare"][0] != "ScaledArrayView":
+                        return (f"in-place result ({label})", f"{op.get('stmt')}: v shows {info['bare'][1][:4]}, the coordinates combined with d are "
+                                                              f"{[None if x is None else float(x) for x in vals[:4]]}")
+                return None
+            positions = list(range(n))
+        return oracle_assign(before, after, out, a, vals, positions, s, o, route in ("attr", "item", "pitem"), route == "attr", label)
     if k in ("W", "S"):
         ch = caller_unchanged(before, after)
         if ch:
@@ -1596,6 +1801,15 @@ def oracle_step(op, before, out, after, info=None):
             return ("change_scaling record", "the record does not carry the new scaling")
         if (op["s"] is not None and after["hs"] != ns) or (op["o"] is not None and after["ho"] != no):
             return ("change_scaling header", "the header does not carry the new scaling")
+        # the header's scaling is what the caller made it: a part change_scaling was not given stays as it was (also when an
+        # edit of it is still pending on the record) - it is the scaling the next assignment and the next write use
+        for arg, key, nm in ((op["s"], "hs", "scales"), (op["o"], "ho", "offsets")):
+            if arg is None and after[key] != before[key]:
+                return (f"change_scaling changed the header's {nm}",
+                        f"change_scaling({'scales' if op['s'] is not None else ''}{', ' if op['s'] is not None and op['o'] is not None else ''}"
+                        f"{'offsets' if op['o'] is not None else ''}) was not given {nm}, but the header's {nm} went from "
+                        f"{[float(x) for x in before[key]]} to {[float(x) for x in after[key]]}"
+                        + (" (the record's: an edit of the header was reverted)" if after[key] == before["rs" if key == "hs" else "ro"] else ""))
         msg = rescale_check(after["ints"], before["xyz"], ns, no, "change_scaling")
         if msg:
             return ("change_scaling half step", msg)
@@ -1657,6 +1871,82 @@ def one_history(rng):
     return h
 
 
+IP_ROUTES = ("attr", "item", "pattr", "pitem", "viewall", "view", "sub", "bare")
+IP_MODES = ("hi", "lo", "fit", "nonfinite", "hi", "lo", "fit", "random")
+
+
+def directed_history(rng, j):
+    """histories aimed at two classes (every member of each family is produced in turn, j = its number):
+    (a) a header scale / offset edit still PENDING on the record (replaced or in place; scales, offsets or both; or the record's
+        own scaling edited instead), then change_scaling with every subset of its arguments {-, scales, offsets, both}, then an
+        assignment or a write;
+    (b) an augmented assignment (+=, -=, *=, /=) by every route, on a record with points next to both ends of the int32 window
+        and in the middle, the operand keeping every point inside (often ON the edge), pushing one point out by less than a step
+        up to a few steps, or non-finite; with or without a pending header edit; then a write."""
+    n = rng.choice([1, 2, 3, 3, 5])
+    fmt = rng.choice([0, 1, 3, 6, 7])
+    sc = [gen_scale(rng) for _ in range(3)]
+    if rng.random() < 0.5:
+        sc = [rng.choice([0.01, 0.001, 1.0, 0.5, 0.1])] * 3
+    of = [gen_offset(rng) if rng.random() < 0.6 else 0.0 for _ in range(3)]
+    if j % 2 == 0:
+        cols = [[rng.choice([0, 1, -1, rng.randrange(-10 ** 6, 10 ** 6), rng.randrange(-10 ** 4, 10 ** 4)]) for _ in range(n)] for _ in range(3)]
+        h = History(rng, init={"fmt": fmt, "n": n, "scales": sc, "offsets": of, "cols": cols})
+        f = j // 2
+        subset, edit = f % 4, (f // 4) % 8
+        if rng.random() < 0.5:
+            h.apply(h.gen_assign_value() if rng.random() < 0.5 else
+                    {"op": "A", "axis": rng.randrange(3), "vals": h.near_grid(sc[0], of[0], n, False), "scalar": False})
+        near = lambda cur: [min(1e3, max(1e-9, float(x) * rng.choice([1, 10, 0.1, 2, 0.5, 100]))) for x in cur]      # noqa: E731
+        las = h.las
+        edits = []
+        if edit in (0, 4, 6):
+            edits.append({"op": "RS", "a": near(las.header.scales)})
+        if edit in (1, 4, 7):
+            edits.append({"op": "RO", "a": [gen_offset(rng) for _ in range(3)]})
+        if edit in (2, 6):
+            edits.append({"op": "MS", "axis": rng.randrange(3), "v": gen_scale(rng), "el": rng.random() < 0.5})
+        if edit in (3, 7):
+            edits.append({"op": "MO", "axis": rng.randrange(3), "v": gen_offset(rng), "el": rng.random() < 0.5})
+        if edit == 5:
+            edits.append({"op": rng.choice(["PRS", "PRO"]), "a": near(las.points.scales)})
+        rng.shuffle(edits)
+        for e in edits:
+            h.apply(e)
+        s = near(las.points.scales if rng.random() < 0.5 else las.header.scales) if subset in (1, 3) else None
+        o = [float(x) if rng.random() < 0.3 else gen_offset(rng) for x in las.header.offsets] if subset in (2, 3) else None
+        h.apply({"op": "C", "s": s, "o": o})
+        last = rng.random()
+        if last < 0.5:
+            h.apply({"op": "W"})
+        elif last < 0.8:
+            h.apply(h.gen_assign_value())
+            h.apply({"op": "W"})
+        return h
+    f = j // 2
+    route, mode = IP_ROUTES[f % 8], IP_MODES[(f // 8) % 8]
+    bop = "+-+-*/+-"[(f % 8 + (f // 8) % 8 + f // 64) % 8]
+    axis = rng.randrange(3)
+    n = max(n, 2) if route == "sub" else n
+    cols = [[rng.choice([0, 1, -1, rng.randrange(-10 ** 6, 10 ** 6)]) for _ in range(n)] for _ in range(3)]
+    col = cols[axis]
+    for i in range(n):      # the window's ends, a few steps inside them, and the middle
+        col[i] = rng.choice([INT_MAX - rng.choice([0, 1, 50, rng.randrange(1, 10 ** 5)]), INT_MIN + rng.choice([0, 1, 10, rng.randrange(1, 10 ** 5)]),
+                             rng.randrange(-10 ** 6, 10 ** 6), 12345, -1000, rng.randrange(INT_MIN, INT_MAX + 1)])
+    h = History(rng, init={"fmt": fmt, "n": n, "scales": sc, "offsets": of, "cols": cols})
+    if rng.random() < 0.35:     # an edit of the header pending on the record: las.x += d reads under the record's scaling, stores under the header's
+        las = h.las
+        h.apply(rng.choice([{"op": "RS", "a": [float(x) * rng.choice([1, 2, 10, 0.5]) for x in las.header.scales]},
+                            {"op": "MO", "axis": axis, "v": float(las.header.offsets[axis]) + rng.choice([1.0, -1000.0, 0.5])},
+                            {"op": "MS", "axis": axis, "v": min(1e3, float(las.header.scales[axis]) * rng.choice([2, 10]))}]))
+    h.apply(h.gen_inplace(mode=mode, route=route, bop=bop, axis=axis))
+    if rng.random() < 0.3:
+        h.apply(h.gen_inplace(axis=axis))
+    if rng.random() < 0.5:
+        h.apply({"op": "W"})
+    return h
+
+
 def _worker(args):
     """the observations of one worker process (its own seeded generator); only data comes back, no laspy object"""
     import random
@@ -1667,8 +1957,8 @@ def _worker(args):
     if kind == "pres":
         return pres_cases(rng, count)
     out = []
-    for _ in range(count):
-        h = one_history(rng)
+    for i in range(count):
+        h = one_history(rng) if kind == "hist" else directed_history(rng, (seed + i) % 4096)
         h.las = h.rng = h.sess = None
         h.vinfo = None
         out.append(h)
@@ -1689,7 +1979,8 @@ def all_cases(ctx):
     (each with a generator seeded from ctx.rng: the whole run is a function of the seed)"""
     def split(kind, total, k):
         return [(kind, ctx.rng.randrange(2 ** 62), total // k + (1 if i < total % k else 0)) for i in range(k)]
-    jobs = split("hist", ctx.n(2000, 12000), 2 * WORKERS) + split("elem", ctx.n(6000, 60000), 2) + split("pres", ctx.n(1500, 10000), 1)
+    jobs = (split("hist", ctx.n(1800, 12000), 2 * WORKERS) + split("dhist", ctx.n(384, 4096), WORKERS)
+            + split("elem", ctx.n(6000, 60000), 2) + split("pres", ctx.n(1500, 10000), 1))
     try:
         import multiprocessing
         with multiprocessing.get_context("fork").Pool(WORKERS) as pool:
@@ -1699,7 +1990,7 @@ def all_cases(ctx):
         parts = [_worker(j) for j in jobs]
     got = {"hist": [], "elem": [], "pres": []}
     for (kind, _, _), part in zip(jobs, parts):
-        got[kind].extend(part)
+        got["hist" if kind == "dhist" else kind].extend(part)
     return got["elem"] + elem_witnesses(), got["pres"], got["hist"]
 
 
@@ -1735,7 +2026,7 @@ def correspond(ctx):
         "index on x, y or z; presented values for random and extreme integers. histories: 1..8 operations over {header.scales/offsets "
         "replaced by a fresh array, header.<axis>_scale/_offset edited in place, las.<axis> = values (also longer than the record: it grows), "
         "las.xyz = (m, 3) array, las.points.<axis> = values, "
-        "change_scaling(scales?, offsets?), write, stream into a writer or appender with another scaling, whole or in chunks of 1..2} "
+        "change_scaling(scales?, offsets?), write, stream into a writer or appender with another scaling, whole, in chunks of 1..2 or point by point (las.points[i])} "
         "+ round 4: an open writer/appender session {open with the LasData's header or a header the caller keeps, via laspy.open / LasWriter / "
         "append mode on a file with 0..2 points; chunks; in-place (x_scale =, scales[i] =) and replacing edits of the caller's header, of the "
         "handed header, of the record's scaling (points.scales = / [i] =); close} interleaved with everything else; assignments by every route "
@@ -1747,7 +2038,15 @@ def correspond(ctx):
         "the coordinates are taken through every presentation route: las.x, las['x'], las.points.x, las.points['x'], las.xyz, the scaled "
         "view's own ways (asarray, scaled_array, copy, int/slice/mask/list index, iteration, arithmetic, max/min), sub-records, "
         "las[slice|list]; every written file is presented through laspy.read, read_points/seek/chunk_iterator(1, 2, n) records, "
-        "reader.read().xyz and laspy.mmap, against integers and scaling parsed from the bytes. non-trivial = an edge/beyond value, or a history with a rescaling write, an "
+        "reader.read().xyz and laspy.mmap, against integers and scaling parsed from the bytes. "
+        "+ round 6: augmented assignments {+=, -=, *=, /=} by every route {las.x, las['x'], las.points.x / a record held in a variable, "
+        "las.points['x'], las.x[:], las.x[int|slice|mask|list], a slice sub-record's x, a view held in a variable} with a Python float / "
+        "numpy scalar / int / per-point array operand chosen from the coordinates now presented and the scaling in force: every result "
+        "inside the window (often exactly ON an edge), the extreme point pushed out by 0.51 .. a few steps at either end (the other points "
+        "stay inside), nan / +-inf / division by zero, anything; directed families: 8 routes x 8 operand modes x 8 operators on records with "
+        "points next to both ends of the window, with or without a pending header edit; and {header scales / offsets / both replaced or "
+        "edited in place, or the record's scaling edited} still pending, then change_scaling with each subset of {scales, offsets}, then an "
+        "assignment / a write. non-trivial = an edge/beyond value, or a history with a rescaling write, an "
         "overflow or an assignment after a header edit; distinct by the exact doubles involved")
     observe(ctx)
     dis = []
@@ -1798,6 +2097,8 @@ def correspond(ctx):
     for h, line in zip(_HIST, outs[base:]):
         ctx.traces += 1
         parts = line.split(" | ")
+        if len(parts) > 1 and parts[-1] == "":      # a history none of whose operations has a model token (the model: nothing changes)
+            parts.pop()
         kinds = [op["op"] for op, _, _ in h.steps]
         for kd in kinds:
             ctx.count("op:" + kd)
@@ -1830,6 +2131,8 @@ def correspond(ctx):
                     ctx.count("assign:" + op["route"] + " <- " + op["src"]["k"] + ("" if op["src"]["k"] != "other" else
                               " same grid" if (op["src"]["s"], op["src"]["o"]) == (scale_in_force(op, h, i)) else
                               " same scale" if op["src"]["s"] == scale_in_force(op, h, i)[0] else " other scale"))
+                if op["op"] == "IP":
+                    ctx.count(f"inplace:{op['route']} {op['bop']}= {op['mode']}" + (" refused" if out[0] == "err" else ""))
                 if op["op"] in ("WW", "WC", "WO") and h.steps[i][1][0] != "err":
                     ctx.count("session:" + op["op"] + (":" + op["via"] + ":" + op["hdr"] if op["op"] == "WO" else ""))
                 if op["op"] in ("W", "S"):
@@ -1860,7 +2163,8 @@ def correspond(ctx):
                         bad = (i, f"file of {op['op']}: {d}", str(mx)[:200], str([r_ for r_ in fp["routes"] if r_[0] in d][:1])[:200])
                         break
         edited = any(k in ("RS", "RO", "MS", "MO", "PRS", "PRO", "PMS", "PMO", "WE") for k in kinds)
-        ctx.case(h.command(), nontrivial=rescaled or (edited and any(k in ("A", "X", "W", "S", "C", "V", "SX", "WW", "WC") for k in kinds)),
+        ctx.case(h.command(), nontrivial=rescaled or (edited and any(k in ("A", "X", "W", "S", "C", "V", "SX", "WW", "WC", "IP") for k in kinds))
+                 or any(op["op"] == "IP" and op["mode"] != "random" for op, _, _ in h.steps),
                  sample={"history": [(h.op_tok(op) or op["op"])[:60] for op, _, _ in h.steps], "points": h.n})
         if bad:
             dis.append({"kind": f"history: {bad[1]}", "input": {"init": init_json(h.init), "ops": [op_json(op) for op, _, _ in h.steps], "at": bad[0]},
